@@ -1,4 +1,3 @@
-from .utils import is_zero
 from .qty import eval_qty
 
 
@@ -32,8 +31,6 @@ def with_units(number, units):
     """
     if number is None:
         return None
-    if is_zero(number):
-        return number
     return number*eval_qty(units)
 
 
